@@ -30,7 +30,14 @@ EXPLANATION = (
     'reads at least one byte or strictly advances its counter. DNSDatagramProtocol.datagramReceived catches EOFError '
     'and ValueError around fromStr and drops the packet. Not decided: exceptions from constructors called with '
     'default arguments, MemoryError, the TCP framing loop.'
+    ' STRUCTURAL throughout (exception-escape and progress over the call graph, for every input); the pointer range is finite-exhaustive over both bytes; the only bounded'
+    ' rule interprets datagramReceived on four concrete datagrams as a second layer to the static handler rules.'
 )
+RULE_KINDS = {
+    "termination/pointer-domain": "finite-exhaustive",        # the pointer expression evaluated over both input bytes, 256 x 256
+    "protocol/drops-malformed-evaluated": "bounded",            # datagramReceived interpreted on four concrete datagrams
+    "*": "structural",                                          # exception-escape and progress rules over the decode call graph
+}
 ASSUMPTIONS = [
     "constructors of the module's own classes called with no/constant/integer arguments do not raise",
     "BytesIO.read/seek/tell, list.append, set.add, len, range, getattr/setattr on declared attributes and log.msg do not raise "
@@ -1162,13 +1169,21 @@ def _check_pointer_loop(ctx, fam, key, f, g, lp, heads, seeks, progress, cons):
             if len(names) == 1:
                 ln = next(iter(names))
                 ok = True
-                for hi in (0, 1, 0x3F, 0x40, 0xC0, 0xFF):
-                    for lo in (0, 1, 0xFF):
-                        e2 = fresh(tdef)
-                        for x in ast.walk(e2):
-                            if isinstance(x, ast.Call) and call_name(x) == "ord":
-                                x.func = ast.Name(id="int", ctx=ast.Load())
-                                x.args = [ast.Constant(value=lo)]
+                # both operands are single bytes: the whole domain 256 x 256 is enumerated (the expression is pre-parsed once per low byte)
+                # the low byte enters as one operand of a top-level `|` or `+` whose other operand depends on the first byte only: the
+                # result is monotone in it, so its extreme values 0 and 255 (with every first byte) cover the whole 256 x 256 domain
+                top = tdef
+                mono = isinstance(top, ast.BinOp) and isinstance(top.op, (ast.BitOr, ast.Add)) and sum(
+                    1 for side in (top.left, top.right) if isinstance(side, ast.Call) and call_name(side) == "ord") == 1 and sum(
+                    1 for x in ast.walk(top) if isinstance(x, ast.Call) and call_name(x) == "ord") == 1
+                for lo in ((0, 255) if mono else range(256)):
+                  e2 = fresh(tdef)
+                  for x in ast.walk(e2):
+                      if isinstance(x, ast.Call) and call_name(x) == "ord":
+                          x.func = ast.Name(id="int", ctx=ast.Load())
+                          x.args = [ast.Constant(value=lo)]
+                  for hi in range(256):
+                    if True:
                         try:
                             v = const_eval(e2, {ln: hi})
                         except NotConst:
@@ -1176,7 +1191,9 @@ def _check_pointer_loop(ctx, fam, key, f, g, lp, heads, seeks, progress, cons):
                             break
                         if not (isinstance(v, int) and 0 <= v < (1 << 14)):
                             ok = False
-        ctx.check(ok, "termination/pointer-domain", scons + " | <target range>", "the pointer target is not confined to 0..16383: the visited set could grow without bound")
+        ctx.check(ok, "termination/pointer-domain", scons + " | <target range>", "the pointer target is not confined to 0..16383: the visited set could grow without bound",
+                  detail="both bytes it is computed from enumerated: every first byte, and for the second byte either all 256 values or - when it enters through a single "
+                         "monotone | / + - its extremes 0 and 255")
     # every loop-back path without a seek makes progress
     seekset = set(seeks)
     back = g.path([d for h in heads for d, l in g.succ[h] if d not in progress], heads, avoid=set(progress), edge_ok=lambda a, b, l: l != "exc")
@@ -1232,7 +1249,7 @@ def check_protocol_handlers(ctx, mod, consts):
         if k == "unsupported":
             _fail(f"DNSDatagramProtocol.datagramReceived uses a construct outside the interpreted subset: {v}")
         n = len(ctl.called("messageReceived"))
-        ctx.check(k == "value" and n == want, "protocol/drops-malformed", q + f" | {label}",
+        ctx.check(k == "value" and n == want, "protocol/drops-malformed-evaluated", q + f" | {label}",
                   f"{label}: datagramReceived {'raises ' + str(v) if k != 'value' else 'returns'} and dispatches {n} message(s); expected no exception and {want} dispatch(es)")
 
 
